@@ -101,4 +101,16 @@ CHECKS = {
         thorough=[R("^TestRunNumbersFixed$", 1, 1, 120), R("^TestRunNumbers$", 8000, 14, 2400)],
         floors={"cas-conflict": ("TestRunNumbers", 0.2)},
     ),
+    "C05": dict(
+        pkg="./props/c05", level="exploration",
+        rule=("(a) rapid-generated agent attribute sets (incl. comma lists) and constraint stacks of 1-5 levels with the same attribute overridden "
+              "nearer to the task, against a map-based reference for MergeParent and Attributes.Satisfy; generated port expressions (print/parse "
+              "round trip); generated offers (cpu/mem/port ranges with holes) and wants (static ranges, dynamic port counts) against set "
+              "arithmetic for Resources.Satisfy. Non-trivial: the reference rejects the (descriptor, agent) pair, an attribute is overridden, or "
+              "the expression contains a true range. Distinct = distinct case digests."),
+        assumptions=["only acceptance of an unsuitable agent/offer is a violation; refusing a suitable one is counted (class false-negative) but is not part of this property"],
+        quick=[R("^(TestConstraintsFixed|TestPortExpressionsFixed)$", 1, 1, 120), R("^TestConstraints$", 5000, 2, 300), R("^TestPortExpressions$", 3000, 1, 300), R("^TestResources$", 5000, 2, 300)],
+        thorough=[R("^(TestConstraintsFixed|TestPortExpressionsFixed)$", 1, 1, 120), R("^TestConstraints$", 100000, 4, 1500), R("^TestPortExpressions$", 50000, 2, 1500), R("^TestResources$", 100000, 4, 1500),
+                  FZ("FuzzPortExpression", 120)],
+    ),
 }
